@@ -16,7 +16,7 @@ import re
 
 import vlib
 
-PROPS = ['Rangers.Props.C11', 'Rangers.Props.C11B', 'Rangers.Props.C11C']
+PROPS = ['Rangers.Props.C11', 'Rangers.Props.C11B', 'Rangers.Props.C11C', 'Rangers.Props.C11D', 'Rangers.Props.C11E']
 DRIVERS = ['C11']
 META = dict(
     level='proof',
